@@ -1,7 +1,9 @@
 #!/usr/bin/env python3
 """Collects verified seeded defects into /verif/seeded/<id>/ and writes seeded/README.md."""
 import json, os, re, shutil, sys
-rounds = [("r1", "/tmp/seeds", "/tmp/svout"), ("r2", "/tmp/seeds2", "/tmp/svout2")]
+# (round label, directory the sub-agents wrote to, directory tools/seedverify.sh wrote to)
+rounds = [("r1", "/tmp/seeds", "/tmp/svfinal/r1"), ("r2", "/tmp/seeds2", "/tmp/svfinal/r2"), ("r3", "/tmp/seeds3", "/tmp/svfinal/r3"),
+          ("r4", "/tmp/seeds4", "/tmp/svfinal/r4"), ("r5", "/tmp/seeds5", "/tmp/svfinal/r5"), ("r6", "/tmp/seeds6", "/tmp/svfinal/r6")]
 rows = []
 for rn, sdir, odir in rounds:
     for i in range(1, 21):
@@ -33,8 +35,12 @@ for rn, sdir, odir in rounds:
             p = out + "/patch_on_head.diff"
             shutil.copy(p if os.path.exists(p) and os.path.getsize(p) > 0 else src + "/patch.diff", dst + "/patch.diff")
             shutil.copy(src + "/demo.sh", dst + "/demo.sh")
+            for extra in ("patch.orig.diff", "patch.orig-ae681e0.diff"):
+                if os.path.exists(src + "/" + extra):
+                    shutil.copy(src + "/" + extra, dst + "/" + extra)
             m = {
                 "property": pid,
+                "rebased": meta.get("rebased", ""),
                 "origin": "independent sub-agent, round %s, given only the property text and a scratch worktree" % rn[1],
                 "summary": meta.get("summary", ""),
                 "needs_to_manifest": meta.get("needs_to_manifest", ""),
